@@ -136,6 +136,19 @@ func pause(r *rand.Rand) {
 	}
 }
 
+// waitOrStuck: the loop's API never blocks for long; a goroutine stuck in AddListener /
+// RemoveListener / Listeners (or a dispatch that never ends) is reported and ends the worker
+func waitOrStuck(wg *sync.WaitGroup, what string, idx int) {
+	done := make(chan struct{})
+	go func() { wg.Wait(); close(done) }()
+	select {
+	case <-done:
+	case <-time.After(10 * time.Second):
+		fmt.Fprintf(os.Stderr, "STUCK: history %d: %s did not finish within 10 s (deadlock?)\n", idx, what)
+		os.Exit(4)
+	}
+}
+
 // ---------- one history ----------
 
 func runHistory(idx int, seed int64) History {
@@ -236,7 +249,7 @@ func runHistory(idx int, seed int64) History {
 	if rng.Intn(2) == 0 {
 		time.Sleep(time.Duration(rng.Intn(2500)) * time.Microsecond)
 	} else {
-		wg.Wait()
+		waitOrStuck(&wg, "the goroutines calling AddListener / RemoveListener / Listeners", idx)
 		// every source is consumed by its own goroutine: all events are taken within moments;
 		// a source nobody reads from is reported instead of being waited for forever
 		fed := make(chan struct{})
@@ -262,7 +275,7 @@ func runHistory(idx int, seed int64) History {
 	}
 	rec.tick(Rec{Tag: "C"})
 	cancel()
-	wg.Wait()
+	waitOrStuck(&wg, "the goroutines calling AddListener / RemoveListener / Listeners", idx)
 	timer := time.AfterFunc(2*time.Second, func() { close(giveup) }) // no goroutine until it fires
 	fwg.Wait()
 	for c, s := range srcs {
@@ -519,7 +532,7 @@ func main() {
 			cls := "crash"
 			line := ""
 			for _, l := range strings.Split(stderr, "\n") {
-				if strings.HasPrefix(l, "fatal error:") || strings.HasPrefix(l, "panic:") || strings.HasPrefix(l, "UNCLOSED:") {
+				if strings.HasPrefix(l, "fatal error:") || strings.HasPrefix(l, "panic:") || strings.HasPrefix(l, "UNCLOSED:") || strings.HasPrefix(l, "STUCK:") {
 					line = l
 					break
 				}
@@ -550,6 +563,7 @@ func main() {
 
 	// 1. recorded histories, in child processes
 	var hs []History
+	dead := 0
 	for from := 0; from < nHist; {
 		n := batch
 		if from+n > nHist {
@@ -574,6 +588,10 @@ func main() {
 		judge(stderr, err, to, "2-8 goroutines add / remove / count listeners during dispatch", from)
 		if err != nil || to {
 			from += got + 1 // skip the history that killed the worker
+			dead++
+			if dead >= 4 {
+				break // the loop keeps killing or wedging its workers: reported, no point in going on
+			}
 		} else {
 			from += n
 		}
